@@ -51,7 +51,8 @@ fn main() {
         "C14" => c14::generate(&mut cases, &mut rng, thorough),
         "iter-exh-c04" => { cases.prop = "C04".into(); c_hist::generate_iter_exhaustive(&mut cases, thorough, "C04") }
         "iter-exh-c05" => { cases.prop = "C05".into(); c_hist::generate_iter_exhaustive(&mut cases, thorough, "C05") }
-        "file-exh" => { cases.prop = "C01".into(); c_file::generate_exhaustive(&mut cases, thorough) }
+        "file-exh" => { cases.prop = "C01".into(); c_file::generate_exhaustive(&mut cases, thorough, false) }
+        "file-exh-c09" => { cases.prop = "C09".into(); c_file::generate_exhaustive(&mut cases, thorough, true) }
         "hist-exh" => { cases.prop = "C03".into(); c_hist::generate_exhaustive(&mut cases, thorough) }
         "file-c01" => { cases.prop = "C01".into(); c_file::generate(&mut cases, &mut rng, thorough, false) }
         "file-c09" => { cases.prop = "C09".into(); c_file::generate(&mut cases, &mut rng, thorough, true) }
